@@ -32,11 +32,17 @@ def replay_file(path: str, quiet=False):
     log = []
     from . import sandbox
 
+    from .engine import TransitionTimeout, guarded_apply, hang_violation
+
     for i, ev in enumerate(events):
         sandbox.invalidate()
-        obs = world.apply(st, ev)
-        sandbox.invalidate()
-        vs = world.check(st, ev, obs)
+        try:
+            obs = guarded_apply(world, st, ev)
+            sandbox.invalidate()
+            vs = world.check(st, ev, obs)
+        except TransitionTimeout:
+            obs = {"hang": True}
+            vs = [hang_violation(world, ev)]
         log.append((ev, obs))
         if vs and i == len(events) - 1 and rec["kind"] == "transition":
             found = vs
